@@ -83,7 +83,12 @@ def mk_desolvation(elements, sign):
         import propka.energy as E
         conf, grp = _desolv_world(ctx, len(elements), elements)
         grp.charge = sign
-        E.radial_volume_desolvation(conf.parameters, grp)
+        # the configurable allowance (0 in the shipped file) is a parameter like any other: a buried volume below it
+        # gives no desolvation, never one of the wrong sign
+        import copy
+        p = copy.copy(conf.parameters)
+        p.desolvationAllowance = ctx.real('desolvation_allowance', 0, 60)
+        E.radial_volume_desolvation(p, grp)
         if sign < 0:
             ctx.claim('acid-never-lowered', ge(grp.energy_volume, 0))
         else:
